@@ -934,6 +934,30 @@ func l1Generate(c *lib.Ctx, rng *rand.Rand) []l1Scenario {
 		}
 		scs = append(scs, sc)
 	}
+	// consecutive numbers, unchanged duration, but the media time jumps (source paused or re-based, channel not
+	// renumbered): forwards by a multiple and by a non-multiple of the duration, backwards by less than a segment
+	for k := 0; k < 3*mult; k++ {
+		keys := [][]string{{"v500", "a128"}, {"v500", "v800"}, {"v500"}}[k%3]
+		sc := l1Scenario{Kind: 4, Tracks: tracksOf(keys...), Tsbd: 60, Gen: "time-jump-same-duration"}
+		const D = 36000
+		for i := range keys {
+			sc.Ups = append(sc.Ups, l1Up{Init: true, Track: i})
+		}
+		first := int64(10 + rng.Intn(90))
+		off := int64(0)
+		for m := int64(0); m < 10; m++ {
+			if m >= 3 && rng.Intn(3) == 0 {
+				off += []int64{2 * D, 5 * D, D / 3, 7*D + 11, -D / 4, -D / 2}[rng.Intn(6)]
+			}
+			if m == 5+int64(k%3) { // at least one jump per run
+				off += []int64{3 * D, D/2 + 7, -D / 3}[k%3]
+			}
+			for t := range keys {
+				sc.Ups = append(sc.Ups, l1Up{Track: t, Seq: first + m, T: (first+m)*D + off, Frags: 1, NS: 50, SD: 720, Lay: "trun"})
+			}
+		}
+		scs = append(scs, sc)
+	}
 	// a sender that restarts re-sends its init segments in the middle of the run
 	for k, keys := range [][]string{{"v500", "a128"}, {"v500", "v800", "a128"}} {
 		sc := l1Scenario{Kind: 4, Tracks: tracksOf(keys...), Tsbd: 30, Gen: "resent-init"}
